@@ -340,6 +340,7 @@ def _run_wrapper(orig):
                     sys.settrace(None)
             rec['how'] = 'returned'
             rec['summary'] = summarize(self, summary)
+            rec['n_warned'] = len(getattr(self, 'warn_list', None) or [])     # warnings the run recorded for this doctest
             if ST.scn.get('render') and summary['failed']:
                 rec['render'] = render_failure(self)
             return summary
